@@ -53,7 +53,7 @@ PROPS["C15"] = {
 }
 PROPS["C19"] = {
     "modules": ["Gws.Props.C19", "Gws.Props.SourceShapeMap"],
-    "theorems": ["SourceShape.map_sections", "CMap.toBinaryNumber_pow2", "CMap.and_mask_eq_mod", "CMap.shard_index_in_range", "CMap.wf_invariant", "CMap.size_is_card",
+    "theorems": ["SourceShape.map_sections", "SourceShape.shard_table_fixed", "CMap.toBinaryNumber_pow2", "CMap.and_mask_eq_mod", "CMap.shard_index_in_range", "CMap.wf_invariant", "CMap.size_is_card",
                  "CMap.load_refines", "CMap.store_refines", "CMap.delete_refines", "CMap.linearizable_single_section", "CMap.len_bounds",
                  "CMap.range_visits", "CMap.range_visits_all", "SMap.smap_refines", "SMap.smap_len_exact", "SMap.smap_range_visits", "SMap.smap_linearizable"],
     "suites": ["cmap", "cmapconc"],
@@ -73,7 +73,7 @@ PROPS["C03"] = {
 }
 PROPS["C04"] = {
     "theorems": ["Reader.readLoop_total", "Reader.readLoop_no_panic", "Reader.step_alloc_bound", "Reader.step_rejects_before_alloc", "Reader.cont_buffer_bounded"],
-    "suites": ["read"],
+    "suites": ["read", "limited", "hs-server", "hs-client", "faults:hs"],
     "trusted": READ_TRUSTED + ["opening-handshake byte parsing is net/http's (http.ReadRequest / http.ReadResponse): outside the model, sampled by the hs-server/hs-client suites only"],
     "clauses_without_theorem": ["handshake bytes cannot crash or hang the endpoint (net/http parsing; sampled)", "the inflater's own working memory is bounded (klauspost; the limit on its OUTPUT is Codec.decompress)"],
 }
